@@ -54,6 +54,13 @@ type Term struct {
 	id    int
 	size  int // tree size (saturating)
 	konst bool
+
+	// pre-solver caches
+	vars     []*Term
+	varsDone bool
+	varsOK   bool
+	set      *bitset
+	setFail  bool
 }
 
 type termCtx struct {
